@@ -240,6 +240,12 @@ impl McpManager {
     }
 
     fn remove_tool_spec(&mut self, tool_key: ToolKey) -> anyhow::Result<()> {
+        // Decide from the servers themselves, as remove_server does. The incrementally kept
+        // reference map is not a function of the applied log: it keeps references that are gone
+        // (a count never goes back to 0, evicted history versions are not subtracted) and it is
+        // empty while the log is replayed on top of a snapshot, so a node that was restarted
+        // would answer this request differently from the nodes that were not.
+        self.init_tool_spec_version_ref_map();
         if let Some(map) = self.tool_spec_version_ref_map.get(&tool_key) {
             if !map.is_empty() {
                 #[cfg(feature = "debug")]
